@@ -142,8 +142,12 @@ def TId.str : TId → String
   | .single t => TxId.str t
   | .global g => "G(" ++ SvcId.str g.frm ++ ")"
 
-def showBlock (o : BlockOut) : String :=
-  let rc := joinSp (o.rcpts.map showRcpt)
+/-- `outside[i]`: transaction i lies outside the model's op language (mapped to an unknown contract call).  When its sender
+cannot pay, both sides answer with the fee failure; the TxStatus field of that failed receipt carries the discarded contract
+result, which the model does not know: printed as `?` -/
+def showBlock (o : BlockOut) (outside : List Bool := []) : String :=
+  let rc := joinSp ((o.rcpts.zip (outside ++ List.replicate o.rcpts.length false)).map fun p =>
+    if p.2 && !p.1.ok && p.1.ret == "fee" then "F:fee:?" else showRcpt p.1)
   let cs := ";".intercalate ((sortKV o.counter).map fun p =>
     p.1 ++ ":[" ++ joinC (p.2.map fun v => s!"{v.index}/{b2s v.valid}/{b2s v.isBatch}") ++ "]")
   let ts := ";".intercalate ((sortKV o.timeoutCounter).map fun p => p.1 ++ ":[" ++ joinC (sortStrings (p.2.map TId.str)) ++ "]")
@@ -179,7 +183,10 @@ def step (s : St) (ws : List String) : St × String :=
     let txs := (splitTxs rest).map parseSigned
     if txs.all Option.isSome then
       let (n', out) := execBlock s.cfg s.node (txs.filterMap id)
-      ({ s with node := n' }, showBlock out)
+      let outside := (txs.filterMap id).map fun p => match p.1 with
+        | .bvm _ c _ _ => c.startsWith "?"
+        | _ => false
+      ({ s with node := n' }, showBlock out outside)
     else (s, "bad-op unparsed")
   | ["q", "status", id] =>
     match parseTxId id with
